@@ -16,6 +16,8 @@ import dataclasses as _dc
 class FrozenErr(Exception):          # an exception class that forbids attribute assignment (frozen dataclass): `exc.__cause__ = ...` from Python code raises FrozenInstanceError
     code: int = 0
 class ModLevel(Exception): pass
+def _with_lock(e):          # an importable exception whose ARGS pickle fine but whose INSTANCE carries an unpicklable attribute set after construction
+    import threading; e.session_lock = threading.Lock(); return e
 class CustomInit(Exception):
     def __init__(self, a, b=2): super().__init__(a, b); self.a = a
 class KwOnlyInit(Exception):
@@ -56,7 +58,7 @@ def alphabet():
     classes = {'ValueError': lambda *a: ValueError(*a), 'ModLevel': lambda *a: ModLevel(*a), 'Nested': lambda *a: Outer.Nested(*a), 'Local': lambda *a: local_cls()(*a), 'Dyn': lambda *a: Dyn(*a),
                'CustomInit': lambda *a: CustomInit(*(a[:2] or (1,))), 'KwOnly': lambda *a: KwOnlyInit(code=a[0] if a else 0), 'MyBase': lambda *a: MyBase(*a), 'KeyError': lambda *a: KeyError(*a),
                'FromResponse': lambda *a: FromResponse(type('Resp', (), {'status': a[0] if a else 0})()),
-               'DataErr': lambda *a: DataErr(a[0] if a and isinstance(a[0], int) and not isinstance(a[0], bool) else 7), 'ValEq': lambda *a: ValEq(*a), 'EmptyAgg': lambda *a: EmptyAgg(*a), 'FrozenErr': lambda *a: FrozenErr(a[0] if a and isinstance(a[0], int) and not isinstance(a[0], bool) else 3)}
+               'DataErr': lambda *a: DataErr(a[0] if a and isinstance(a[0], int) and not isinstance(a[0], bool) else 7), 'ValEq': lambda *a: ValEq(*a), 'EmptyAgg': lambda *a: EmptyAgg(*a), 'WithLock': lambda *a: _with_lock(ModLevel(*a)), 'FrozenErr': lambda *a: FrozenErr(a[0] if a and isinstance(a[0], int) and not isinstance(a[0], bool) else 3)}
     args = {'none': (), 'str': ('boom',), 'mixed': (1, 'x', None, 2.5, True), 'nested': ([1, {'k': [2]}],), 'bytes': (b'\xff\x00',), 'set': ({1, 2},), 'callable': (len,), 'badrepr': (BadRepr(),),
             'unpicklable': (Unpicklable(),), 'unloadable': (Unloadable(),), 'surrogate': ('\ud800',), 'inf': (float('inf'),), 'nan': (float('nan'),), 'intkey': ({1: 2},), 'tuple': ((1, 2),), 'big': (2 ** 80,)}
     return classes, args
@@ -99,6 +101,10 @@ def check_node(orig, back, trip, path, pr, json_reprable):
         if rebuilt_ok and json_reprable and trip != 'pickle':
             if type(back) is not type(orig): pr.append(f"C19: {trip}: {path}: importable class {tn} with representable args came back as {type(back).__name__}({_s(repr, back.args)})")
             elif not eq_args(list(orig.args), list(back.args)): pr.append(f"C19: {trip}: {path}: {tn} args {_s(repr, orig.args)} came back as {_s(repr, back.args)}")
+        if rebuilt_ok and trip == 'pickle':          # pickle: a fresh instance of the SAME class built from the same (picklable) args round-trips => the original class must come back
+            try: fresh_ok = eq_args(list(pickle.loads(pickle.dumps(type(orig)(*orig.args))).args), list(orig.args))
+            except Exception: fresh_ok = False
+            if fresh_ok and type(back) is not type(orig): pr.append(f"C19: pickle: {path}: importable class {tn} whose fresh instance {tn}{_s(repr, orig.args)} pickles fine came back as {type(back).__name__}({_s(repr, back.args)})")
     else:
         # stand-ins allowed by the statement: a same-named synthetic class, the nearest reconstructible base class, or a generic/wrapper exception whose text names the class
         base_ok = any(type(back) is b for b in type(orig).__mro__[1:] if b not in (Exception, BaseException, object))
